@@ -515,6 +515,12 @@ def matrix_specs():
                               {'op': 'load_name', 'lib': small[i % len(small)]},
                               {'op': 'load_name',
                                'lib': small[(i + 3) % len(small)]}]}]})
+    # the override variable present but empty (shell wrappers, container
+    # defaults): the same as not set
+    specs.append({'id': 'matrix-emptyenv', 'roots': [bundled_dir()],
+                  'env': {ENVVAR: ''}, 'lives': [{'ops': [
+                      {'op': 'load_name', 'lib': small[0]},
+                      {'op': 'load_name', 'lib': small[1]}]}]})
     # one more property-set type registered before loading
     for lib in small[:2] + ['BensonGA']:
         specs.append({'id': 'matrix-extraset-%s' % lib,
@@ -577,6 +583,8 @@ def gen_history(run_seed):
         env[ENVVAR] = relocs[0]
     if rng.random() < 0.15:
         env[ENVVAR] = '/sim/no-such-dir'        # wrong from the start
+    elif have_bundled and ENVVAR not in env and rng.random() < 0.3:
+        env[ENVVAR] = ''                        # set but empty = not set
     lives = []
     for _ in range(rng.randrange(1, 4)):
         ops = []
@@ -610,6 +618,7 @@ def gen_history(run_seed):
                 choices = list(relocs) + list(relocs) + ['/sim/no-such-dir']
                 if have_bundled:
                     choices.append(None)
+                    choices.append('')       # set but empty = not set
                 ops.append({'op': 'setenv', 'value': rng.choice(choices)})
         lives.append({'ops': ops})
     return {'id': 'h%d' % run_seed, 'run_seed': run_seed, 'roots': roots,
